@@ -21,6 +21,7 @@ EXPLANATION = (
     "every access to a per-worker adjacency pool in safe_sequences happens inside `with worker_locks[w]` with the same index; (R3) a "
     "non-SCC edge is fixed to 1 only after the `m != 1 -> ValueError` test on every path, SCC edges get >= m with m the Counter value, "
     "and the protection set of the zero-fixing (including the gap rule) conforms to the frozen builder description; (R4) the flow-safe path scan extends a path only while its excess flow stays "
+    " (R5) index-specific safety effects (fixing sequence i into walk i, pruning walk i against it) are rejected or switched off when given weights pin walks to indices; (R6) flow-safe paths are used only when nothing is ignored and the flow is conserved, and are computed on the internal graph (C10.R8). "
     "strictly positive (the published characterisation of flow-decomposition safety), decided on the polynomial normal form of the stop test.  NOT decided - and "
     "not decidable here: safety of the sequences in every cover, incompatibility of the chosen sequences, soundness of the pruning."
 )
